@@ -756,6 +756,10 @@ def run_store(repo, task):
 
 
 def replay(repo, rp):
+    if 'options' in rp and 'protocol' in rp:
+        r = run_config_transport(repo, dict(tier='quick', shard=0, nshards=1))
+        fails = list(r['failures'].values()) if isinstance(r['failures'], dict) else list(r['failures'])
+        return dict(outcome='fail', key=fails[0]['key'], what=fails[0]['what']) if fails else dict(outcome='pass')
     case = {k: v for k, v in rp.items() if k != 'task'}
     rep = Report('C18-replay', dict(tier='quick'), rule='', bound='')
     with tempfile.TemporaryDirectory(dir=os.environ.get('VERIF_SCRATCH', '/var/tmp'), prefix='a7c18r_') as tmp:
@@ -772,3 +776,48 @@ def replay(repo, rp):
     if out['status'] != 'ok':
         return dict(outcome='error', detail=out.get('detail'))
     return dict(outcome='fail' if out['failures'] else 'pass', detail=[f['key'] + ': ' + f['what'][:300] for f in out['failures']])
+
+
+# ---------------------------------------------------------------------------------------------
+# what the workers of a zipped store receive: the per-label StoreConfig travels to a worker process by pickle
+
+def run_config_transport(repo, task):
+    """the process-pool forms of the zipped stores send each label's StoreConfig to the worker by pickle: the config that arrives is the config that was sent
+    (every option, including falsy non-default ones), so that the pooled read / write applies the same options as the sequential one"""
+    import pickle
+    import static_frame as sf
+    rep = Report('C18-config-transport', task, rule='every single-option deviation of StoreConfig from its defaults (both truth values / 0 / 1 / 2 for the depth options, None / tuple for the '
+                 'label options) and all-options-flipped x pickle protocols 2..5: the unpickled config has the same value for every public option; likewise StoreConfigHE and a StoreConfigMap',
+                 bound='one option at a time + one combined case')
+    import inspect
+    params = [p for p in inspect.signature(sf.StoreConfig.__init__).parameters.values() if p.name != 'self']
+    names = [p.name for p in params]
+    alts = {}
+    for p_ in params:
+        d = p_.default
+        if isinstance(d, bool):
+            alts[p_.name] = [not d]
+        elif isinstance(d, int):
+            alts[p_.name] = [v for v in (0, 1, 2) if v != d]
+        elif d is None and p_.name in ('dtypes',):
+            alts[p_.name] = [{'a': 'int64'}]
+        elif d is None and p_.name in ('index_name_depth_level', 'columns_name_depth_level', 'columns_select', 'trim_nadir'):
+            alts[p_.name] = []
+        else:
+            alts[p_.name] = []
+    cases = [{n: v} for n in names for v in alts[n]]
+    cases.append({n: alts[n][0] for n in names if alts[n]})
+    for kw in rep.shard(cases):
+        for proto in (2, 3, 4, 5):
+            for cls in (sf.StoreConfig, getattr(sf, 'StoreConfigHE', None) or sf.StoreConfig):
+                rp = dict(options={k: repr(v) for k, v in kw.items()}, protocol=proto, cls=cls.__name__)
+                rep.count(distinct_key=(repr(sorted(rp['options'].items())), proto, cls.__name__), sample=rp)
+                try:
+                    cfg = cls(**kw)
+                    back = pickle.loads(pickle.dumps(cfg, protocol=proto))
+                except Exception as e:
+                    rep.fail(f'C18:config-transport:raises-{type(e).__name__}', f'{cls.__name__}({kw}) cannot be sent to a worker (pickle protocol {proto}): {e!r}', rp)
+                    continue
+                diff = {n: (getattr(cfg, n, None), getattr(back, n, None)) for n in names if repr(getattr(cfg, n, None)) != repr(getattr(back, n, None))}
+                rep.check(not diff, 'C18:config-transport:option-changed-in-transit', f'{cls.__name__}({kw}) arrives in a worker (pickle protocol {proto}) with {diff} (sent, received)', rp)
+    return rep.done()
